@@ -123,7 +123,7 @@ def _worker_chunk(prop, seed, tier, indices):
         try:
             out.append(_run_one(prop, seed, tier, idx))
         except Exception as e:  # noqa: BLE001  harness error
-            out.append({"idx": idx, "harness_error": "".join(traceback.format_exception(e))[-4000:]})
+            out.append({"idx": idx, "harness_error": "".join(traceback.format_exception(e))[-6000:]})
         finally:
             faulthandler.cancel_dump_traceback_later()
     return out
@@ -332,11 +332,12 @@ def cmd_check(prop, tier, seed, runs_cap, budget, workers, det_k, write_evidence
     chunk = getattr(scn, "chunk", 4)
     next_idx = 0
     pending = set()
+    t_budget0 = time.time()  # the budget clock starts after imports / prepare (slow on a loaded machine)
     with ProcessPoolExecutor(max_workers=workers, mp_context=ctx) as ex:
         try:
             while True:
                 while (len(pending) < workers * 2 and (runs_cap is None or next_idx < runs_cap)
-                       and (runs_cap is not None or time.time() - t0 < budget)
+                       and (runs_cap is not None or next_idx == 0 or time.time() - t_budget0 < budget)
                        and not harness_errors):
                     hi = next_idx + chunk if runs_cap is None else min(runs_cap, next_idx + chunk)
                     idxs = list(range(next_idx, hi))
